@@ -26,4 +26,9 @@ CHECKS: dict[str, dict] = {
         "text": "Decides necessary structural clauses for every pair of IR fragments: each semantic field named by the property (name, operands, result types, attributes, properties, successors, regions; block argument types, ops; blocks) is compared by a rejecting, discriminating test on every path to an accepting return; two values are paired in the correspondence only after their types were compared; lookups that can reject are total (identity fallback or membership guard), which is what reflexivity at top level needs; blocks and values are registered before references to them are compared; CSE's key hashes a subset of what it compares and never keys terminators. It does not decide completeness of the relation on arbitrary isomorphic pairs.",
         "note": 'Trusted: the list of semantic fields is taken from the property statement; bookkeeping fields (parent links, uses, location) are exempt.',
     },
+    "C02": {
+        "technique": _T + 'ownership/derivation analysis (writes target only objects created by the clone), mapper provenance, registration-before-remap ordering on the CFG',
+        "text": "Decides for every source IR and destination at once: each attribute store and IR-mutator call inside the clone call tree targets an object derived from a constructor/create call of that clone (the only write to the destination is the insertion of the fresh blocks); operands and successors of the copy are obtained through the value/block mappers with identity fallback; blocks, block arguments and results are registered before any operand is remapped and nested clone calls defer operands; attribute/property dictionaries are copied; an index 0 is not treated as absent; apply_to_clone applies the pass to clones only. Whole-copy equivalence is not decided (C03's oracle at run time).",
+        "note": 'Trusted: constructor calls Block()/Region()/create()/clone*() return new objects; derivation follows zip/enumerate components and local lists filled only by append.',
+    },
 }
